@@ -253,7 +253,8 @@ def run(ctx):
     from rules import C09 as _c09
     from ovsa.engine import Ctx as _Ctx
     sub9 = _Ctx("C09", prog, ctx.root, "quick")
-    getattr(_c09, "_run_base", _c09.run)(sub9)
+    from rules.round3 import run_lender as _run_lender
+    _run_lender(_c09, sub9, ctx)
     n9 = 0
     for i_ in sub9.instances:
         if i_["rule"] == "R9.2" and "failing=" in i_["inst"] and not i_["inst"].endswith("failing=None"):
@@ -263,7 +264,7 @@ def run(ctx):
             else:
                 ctx.fail("R10.2", "relocation-after-failed-copy:" + i_["inst"], i_["where"], i_["what"] +
                          " (the only complete copy of the stream is split between the two directories)")
-    ctx.need(n9 >= 6, "R10.2: only %d relocation instances with a failing copy" % n9)
+    ctx.need(n9 >= 6 or getattr(sub9, "lender_broken", None), "R10.2: only %d relocation instances with a failing copy" % n9)
 
     # ---- R10.3 ---------------------------------------------------------------------------
     # a short write is an I/O fault too: the loop must resume where the kernel stopped (same evaluation as C01 R1.3)
